@@ -24,6 +24,9 @@ class Sim:
     def __init__(self, nthreads, exact=True):
         self.exact = exact
         self.inexact = False      # a clock value was not exactly representable as a float (non-dyadic constants)
+        self.wall_offset = Fr(0)
+        self.wall_jumps = [Fr(3600), Fr(-1800), Fr(1, 2), Fr(-7), Fr(86400), Fr(2), Fr(-1, 4)]
+        self.njumps = 0
         self.clock = [Fr(0)] * nthreads
         self.cur = 0
         self.lockfree = {'r': Fr(0), 'w': Fr(0)}
@@ -43,6 +46,12 @@ class Sim:
         fx = Fr(x)
         self.sleeps.append(fx)
         self.clock[self.cur] += fx + self.over
+        if self.wall_jumps:       # the wall clock steps while the code sleeps
+            self.wall_offset += self.wall_jumps[self.njumps % len(self.wall_jumps)]
+            self.njumps += 1
+
+    def wall(self):
+        return float(1_700_000_000 + self.clock[self.cur] + self.wall_offset)
 
     def advance(self, dt):
         self.clock[self.cur] += dt
@@ -63,9 +72,22 @@ class SimLock:
 
 
 class FakeTime:
+    """replicat.utils.time under the virtual clock.  perf_counter / monotonic are the scenario's monotonic clock; time() is the
+    WALL clock, which the scenario lets step forwards and backwards (NTP, manual changes) whenever the code sleeps; the window
+    bound is judged on the monotonic clock.  Everything else is the real time module."""
+
     def __init__(self, sim):
         self.perf_counter = sim.perf_counter
+        self.monotonic = sim.perf_counter
         self.sleep = sim.sleep
+        self.time = sim.wall
+        self.perf_counter_ns = lambda: int(sim.perf_counter() * 10 ** 9)
+        self.monotonic_ns = self.perf_counter_ns
+        self.time_ns = lambda: int(sim.wall() * 10 ** 9)
+
+    def __getattr__(self, name):
+        import time as _t
+        return getattr(_t, name)
 
 
 class SlowFile:
@@ -581,6 +603,14 @@ def slow_io_probe(rng, randomised):
 
 # --------------------------------------------------------------------------- transparency (model-free)
 def transparency_case(rng, idx):
+    case = _transparency_case(rng, idx)
+    if rng.random() < 0.3:
+        # the underlying stream is a raw one: some calls move only part of the data, a write may take nothing at all
+        case['short'] = [rng.choice(['all', 'all', 'half', 'zero', 'one']) for _ in range(rng.randint(1, 6))]
+    return case
+
+
+def _transparency_case(rng, idx):
     import replicat.utils as U
     init = rng.randbytes(rng.choice([0, 1, 10, 100, 1000, 5000]))
     limit = rng.choice([1, 7, 64, 1000, 4096, 10 ** 6])
@@ -658,12 +688,44 @@ def apply_ops(f, ops):
     return res
 
 
+class ShortIO(io.BytesIO):
+    """a raw-style stream (pipe, socket): a write may accept only part of the data or nothing and says how much it took, a read
+    may return fewer bytes than asked; the plan says which calls are short"""
+
+    def __init__(self, content, plan):
+        super().__init__(content)
+        self.plan, self.k = list(plan), 0
+
+    def _next(self):
+        v = self.plan[self.k % len(self.plan)] if self.plan else 'all'
+        self.k += 1
+        return v
+
+    def write(self, data):
+        v = self._next()
+        n = len(data) if v == 'all' else 0 if v == 'zero' else len(data) // 2 if v == 'half' else min(1, len(data))
+        return super().write(bytes(data)[:n])
+
+    def read(self, size=-1):
+        v = self._next()
+        if v == 'all' or size is None or size < 0 and v == 'zero':
+            return super().read(size)
+        left = len(self.getbuffer()) - self.tell()
+        want = left if size < 0 else min(size, left)
+        n = want if v == 'zero' else want // 2 if v == 'half' else min(1, want)     # a short read still returns something
+        return super().read(max(n, 1) if want else 0)
+
+
 def run_transparency(case):
     sim = Sim(1, exact=False)
     with patched_time(sim) as U:
         lim = U.RateLimitedIO(case['limit'])
-        raw = io.BytesIO(bytes.fromhex(case['init']))
-        ref = io.BytesIO(bytes.fromhex(case['init']))
+        if case.get('short'):
+            raw = ShortIO(bytes.fromhex(case['init']), case['short'])
+            ref = ShortIO(bytes.fromhex(case['init']), case['short'])
+        else:
+            raw = io.BytesIO(bytes.fromhex(case['init']))
+            ref = io.BytesIO(bytes.fromhex(case['init']))
         w = lim.wrap(raw)
         with contextlib.ExitStack() as st:
             if case['bar']:
@@ -683,12 +745,12 @@ def run_transparency(case):
 def check_transparency(case, rep):
     got, want, a, b, ta, tb, slept = run_transparency(case)
     rep.count('transparency:' + case['stack'])
-    rep.case(('transparency', case['init'], case['limit'], case['stack'], case['ops']),
+    rep.case(('transparency', case['init'], case['limit'], case['stack'], case['ops'], case.get('short')),
              nontrivial=slept > 0 and any(o[0] in ('read', 'write') for o in case['ops']))
     if got != want or a != b or ta != tb:
         first = next((i for i, (x, y) in enumerate(zip(got, want)) if x != y), None)
         rep.violations.append({
-            'what': (f'the rate-limited wrapper ({case["stack"]}) is not transparent: op #{first} {case["ops"][first] if first is not None else ""} '
+            'what': (f'the rate-limited wrapper ({case["stack"]}' + (f', over a raw stream whose calls move {case["short"]} of what is asked' if case.get('short') else '') + f') is not transparent: op #{first} {case["ops"][first] if first is not None else ""} '
                      f'returned {got[first] if first is not None else "same results"} instead of {want[first] if first is not None else ""}; '
                      f'final contents equal: {a == b}, final position {ta} vs {tb}'),
             'signature': {'kind': 'transparency', 'stack': case['stack']},
